@@ -45,7 +45,10 @@ CLAIM = {
              "behaviour and every snapshot fault, and after any history equals v0 + number of committed turns (kill-switch turns contribute 0); the only "
              "way apply raises is the unguarded snapshot write; snapshot attempted iff turn % max(1,n) == 0; on-apply invalidation empties every configured "
              "namespace and reports exactly the number removed; kill-switch turns make no store call, keep version and snapshot, and emit no t4/apply record."),
-    "note": ("Round 4: histories are driven both with a fresh Orchestrator()/ctx per turn and with ONE long-lived Orchestrator instance and ONE long-lived "
+    "note": ("Round 6: the store double's REPLY is drawn from a shape/fault pool: plain dict, proxy with .get, proxy whose .get raises any of 16 exception "
+             "classes (RuntimeError, KeyError, OverflowError, RecursionError, ...) for some or all keys, reply whose `get` lookup raises, non-mappings, counters "
+             "that are inf/-inf/nan/huge or whose int() raises each class -- on the batch call and on each single-delta call of the fallback; the "
+             "handoff / at-most-once / version / cadence / total monitors are evaluated on all of them (in the model these are Cnt.bad or a 0 default). Round 4: histories are driven both with a fresh Orchestrator()/ctx per turn and with ONE long-lived Orchestrator instance and ONE long-lived "
              "ctx whose config.t4 is edited in place / replaced between turns; every on/off pattern of each per-turn gate (t4.enabled, bust mode, cadence) over "
              "<= 4 (quick) / <= 6 (thorough) turns is enumerated under those drivers; turnSpec now also carries the cache clause (turnInvalidateB), so a gate "
              "latched from an earlier turn yields a failing input. Round 3: the store double now carries the whole surface the apply->snapshot path touches (apply_deltas / export_state / w / import_state, "
@@ -76,7 +79,7 @@ TRUSTED = ["store surface exercised by the doubles (derived from apply.py + snap
            "CacheManager internals beyond invalidate_namespace/get/set (C15/C05)"]
 
 NS = ["t2:semantic", "t1:propagate", "t2:hybrid", "misc"]
-BAD = ["abc", None, [], "1.5", {"x": 1}, ""]
+BAD_PLAIN = ["abc", None, [], "1.5", {"x": 1}, ""]
 JUNK_VER = ["abc", "1.5", "", [], "v7"]
 JUNK_TURN = ["abc", None, "1.5", []]
 
@@ -89,7 +92,77 @@ class _SnapBoom(OSError):
     pass
 
 
-EXC = [KeyError, RuntimeError, ValueError, _Boom, OSError, ZeroDivisionError, AssertionError, StopIteration, TypeError]
+EXC = [KeyError, RuntimeError, ValueError, _Boom, OSError, ZeroDivisionError, AssertionError, StopIteration, TypeError,
+       OverflowError, RecursionError, LookupError, AttributeError, MemoryError, ArithmeticError, NotImplementedError]
+
+
+# ---- reply-shape fault pool -------------------------------------------------------------------------
+# What a store may hand back from a call that itself succeeded.  Reading the reply must never abort the
+# turn, skip the version bump or cut the one-by-one fallback short, whatever exception class surfaces
+# while the reply is read (`.get`, attribute lookup, `int()`), and whatever the counters look like.
+
+class _BadInt:
+    """A counter whose int() raises `exc`."""
+
+    def __init__(self, exc):
+        self._exc = exc
+
+    def __int__(self):
+        raise self._exc("scripted int() failure")
+
+    def __repr__(self):
+        return f"_BadInt({self._exc.__name__})"
+
+
+class _IntReturnsStr:
+    def __int__(self):
+        return "3"  # int() -> TypeError
+
+
+class _Reply:
+    """Lazy / proxy reply: `.get` raises `exc` for poisoned keys, answers from `data` otherwise."""
+
+    def __init__(self, data, poison=(), exc=RuntimeError):
+        self._data, self._poison, self._exc = dict(data), set(poison), exc
+
+    def get(self, key, default=None):
+        if key in self._poison:
+            raise self._exc(f"scripted reply.get({key!r}) failure")
+        return self._data.get(key, default)
+
+
+class _ReplyGetLookupRaises:
+    """Reply whose `get` attribute lookup itself raises."""
+
+    def __init__(self, exc):
+        self._exc = exc
+
+    @property
+    def get(self):
+        raise self._exc("scripted reply.get lookup failure")
+
+
+class _ReplyGetItemOnly:
+    """Sequence-like reply with [] but no usable .get (get is not callable)."""
+    get = None
+
+    def __getitem__(self, k):
+        raise KeyError(k)
+
+
+# counters int() cannot turn into a number, by mechanism: ValueError / TypeError / OverflowError (inf) /
+# ValueError (nan) / arbitrary exception classes from __int__
+BAD = BAD_PLAIN + [float("inf"), float("-inf"), float("nan"), _IntReturnsStr()] + [_BadInt(x) for x in EXC]
+NONMAPPING = [None, 5, [], "reply", 3.5, (1, 2), object(), _ReplyGetItemOnly()]
+N_REPLY_SHAPES = 6
+
+
+def _bad_kind(v: Any) -> str:
+    if isinstance(v, float):
+        return "float_" + ("nan" if v != v else "inf")
+    if isinstance(v, _BadInt):
+        return "int_raises_" + v._exc.__name__
+    return "plain"
 
 
 def _ok_val(n: int, form: int) -> Any:
@@ -133,6 +206,18 @@ class _Recorder:
         self.graphs: List[Any] = []
 
 
+class _ShapeLog(list):
+    """Reply shapes used, also remembered with the index of the call they answered."""
+
+    def __init__(self, owner):
+        super().__init__()
+        self._owner = owner
+
+    def append(self, x):
+        super().append(x)
+        self._owner._shape_at.append((self._owner.n - 1, x))
+
+
 class ScriptedStore:
     def __init__(self, script, real, idx_of):
         self.script = list(script)
@@ -141,6 +226,12 @@ class ScriptedStore:
         self.calls: List[List[int]] = []
         self.graphs: List[Any] = []
         self.n = 0
+        self.shapes: List[str] = _ShapeLog(self)
+        self._shape_at: List[Tuple[int, str]] = []
+
+    @property
+    def shapes_after_first(self) -> List[str]:
+        return [x for k, x in self._shape_at if k > 0]
 
     def apply_deltas(self, graph_id, deltas):
         self.graphs.append(graph_id)
@@ -153,11 +244,42 @@ class ScriptedStore:
         e, c = o[1], o[2]
         form = self.real.get("okform", 0) + k
         if e == 0 and c == 0 and self.real.get("nonmapping") and k % 2 == 0:
-            return None  # not a mapping: _safe_get falls back to the default 0
+            self.shapes.append("nonmapping")
+            return NONMAPPING[(self.real.get("bad", 0) + k) % len(NONMAPPING)]  # _safe_get falls back to the default 0
         ev = BAD[(self.real.get("bad", 0) + k) % len(BAD)] if e is None else _ok_val(e, form)
-        cv = BAD[(self.real.get("bad", 0) + k + 1) % len(BAD)] if c is None else _ok_val(c, form + 1)
+        cv = BAD[(self.real.get("bad", 0) + 3 * k + 1) % len(BAD)] if c is None else _ok_val(c, form + 1)
+        for v, isbad in ((ev, e is None), (cv, c is None)):
+            if isbad:
+                self.shapes.append("bad:" + _bad_kind(v))
         ckey = "clamped" if (self.real.get("clamped") and k % 2 == 1) else "clamps"
-        return {"edits": ev, ckey: cv}
+        data = {"edits": ev, ckey: cv}
+        shape = (self.real.get("reply", 0) + k) % N_REPLY_SHAPES
+        exc = EXC[(self.real.get("exc", 0) + 2 * k + 1) % len(EXC)]
+        if shape == 1:
+            self.shapes.append("proxy")
+            return _Reply(data)
+        if shape == 2 and (e == 0 or c == 0):
+            # a count of 0 realised as "reading that key raises": the default (0) is what apply must use
+            poison = set()
+            if e == 0:
+                poison.add("edits")
+                data.pop("edits")
+            if c == 0:
+                poison |= {"clamps", "clamped"}
+                data.pop(ckey)
+            self.shapes.append("get_raises:" + exc.__name__)
+            return _Reply(data, poison, exc)
+        if shape == 3 and c is not None:
+            # `clamps` unreadable, the value sits under the `clamped` alias (the default expression of the outer read)
+            self.shapes.append("get_raises_alias:" + exc.__name__)
+            return _Reply({"edits": ev, "clamped": cv}, {"clamps"}, exc)
+        if shape == 4 and e == 0 and c == 0:
+            self.shapes.append("get_lookup_raises:" + exc.__name__)
+            return _ReplyGetLookupRaises(exc)
+        if shape == 5 and e == 0 and c == 0:
+            self.shapes.append("get_raises:" + exc.__name__)
+            return _Reply({}, {"edits", "clamps", "clamped"}, exc)
+        return data
 
 
 def _mk_cm(sizes, fault_holder):
@@ -211,10 +333,12 @@ def _gen_script(rng: random.Random, nd: int) -> list:
     def outcome(p_raise):
         if rng.random() < p_raise:
             return ["raise"]
+        if rng.random() < 0.25:
+            return ["ret", 0, rng.choice([0, 0, 1, None])]
         return ["ret", cnt(), cnt()]
     r = rng.random()
     if r < 0.35:
-        first = ["ret", rng.choice([0, 1, nd, 3]), rng.choice([0, 0, 1])]
+        first = ["ret", rng.choice([0, 0, 1, nd, 3, 10 ** 30]), rng.choice([0, 0, 1])]
     elif r < 0.65:
         first = ["raise"]
     elif r < 0.9:
@@ -241,7 +365,7 @@ def _gen_common(rng: random.Random) -> Tuple[dict, dict]:
          "cmFault": rng.choice([None, None, None, 0, 1, 2]),
          "deltas": ds, "script": _gen_script(rng, len(ds))}
     real = {"mode": mode, "every_form": rng.randrange(3), "turn_form": rng.randrange(4), "exc": rng.randrange(len(EXC)),
-            "okform": rng.randrange(4), "bad": rng.randrange(len(BAD)), "clamped": rng.random() < 0.3,
+            "okform": rng.randrange(4), "bad": rng.randrange(len(BAD)), "reply": rng.randrange(N_REPLY_SHAPES), "clamped": rng.random() < 0.3,
             "nonmapping": rng.random() < 0.2, "nofn": rng.randrange(2)}
     return d, real
 
@@ -258,7 +382,9 @@ def _mk_store(kind: str, script, real, idx_of, export_mode: str = "absent", w_mo
     `import_state` (boot loader; always raises here, it must never matter)."""
     if kind == "none":
         return None
-    exc = lambda k: EXC[(real.get("exc", 0) + k) % len(EXC)]
+    # (an AttributeError from an attribute lookup *is* "attribute absent" for getattr(..., None): not a fault)
+    pool = [x for x in EXC if x is not AttributeError]
+    exc = lambda k: pool[(real.get("exc", 0) + k) % len(pool)]
     ns: dict = {}
     if kind == "noFn":
         if real.get("nofn", 0) == 1:
@@ -442,6 +568,8 @@ class ApplyComp(Component):
         out.setdefault("snapStore", None)
         if isinstance(store, ScriptedStore):
             out["graphs_ok"] = all(g == "g:surface" for g in store.graphs)
+            out["reply_shapes"] = sorted(set(store.shapes))
+            out["reply_shape_fallback"] = sorted(set(store.shapes_after_first))
         return out
 
     # -- comparison / monitors ---------------------------------------------
@@ -528,6 +656,20 @@ class ApplyComp(Component):
             t.add("invalidate")
             if case["cmFault"] is not None and case["cmFault"] < len(case["namespaces"] if case["namespaces"] is not None else [0]):
                 t.add("cm_fault")
+        for sh in io.get("reply_shapes") or []:
+            mech, _, cls = sh.partition(":")
+            if mech == "bad":
+                t.add("reply:bad_count:" + ("float" if cls.startswith("float") else "int_raises" if cls.startswith("int_raises") else "plain"))
+                if cls.startswith("float"):
+                    t.add("reply:count_" + cls[6:])
+                if cls.startswith("int_raises_"):
+                    t.add("reply_exc:" + cls[11:])
+            else:
+                t.add("reply:" + mech)
+                if cls:
+                    t.add("reply_exc:" + cls)
+        for sh in io.get("reply_shape_fallback") or []:
+            t.add("fallback_reply:" + sh.split(":")[0])
         if case["turn"] is None:
             t.add("turn_unparsable")
         if case["store"] != "none" and io.get("snap") is not None:
